@@ -67,7 +67,7 @@ enum Act {
     Mint { to: usize, amt: Amt },
     MintFrom { minter: usize, to: usize, amt: Amt },
     Transfer { from: usize, to: usize, amt: Amt },
-    /// expiration = current ledger + `exp` - 1
+    /// expiration = current ledger + `exp` - 1 (exp 21: beyond the minimum temporary-entry TTL)
     Approve { from: usize, spender: usize, amt: Amt, exp: u8 },
     TransferFrom { spender: usize, from: usize, to: usize, amt: Amt },
     Burn { from: usize, amt: Amt },
@@ -161,8 +161,9 @@ impl Scenario for C12 {
         let apairs: Vec<(usize, usize)> = if t { vec![(A, B), (B, C), (A, A)] } else { vec![(A, B)] };
         for (from, spender) in apairs {
             for amt in [Amt::Five, Amt::One, Amt::Zero, Amt::Neg] {
-                for exp in 0..4u8 {
+                for exp in [0u8, 1, 2, 3, 21] {
                     if !t && (amt == Amt::One || (amt == Amt::Neg && exp != 1)) { continue; }
+                    if exp == 21 && amt != Amt::Five { continue; }
                     v.push(Act::Approve { from, spender, amt, exp });
                 }
             }
@@ -195,6 +196,8 @@ impl Scenario for C12 {
         if m.advances < if t { 4 } else { 3 } {
             v.push(Act::Advance(1));
             v.push(Act::Advance(2));
+            // longer than the minimum temporary-entry TTL (16), shorter than a 20-ledger allowance
+            v.push(Act::Advance(17));
         }
         v
     }
@@ -408,7 +411,7 @@ fn main() {
         let mut o = Opts::new(tier, if thorough { 5 } else { 4 });
         o.min_depth = 3;
         o.wall_cap_s = if thorough { 2400.0 } else { 100.0 };
-        o.rule = "all sequences over mint (owner), mint_from (constructor minter, non-minter), transfer, approve (expiration = ledger-1, ledger, ledger+1, ledger+2), transfer_from, burn, burn_from with amounts chosen relative to the state {-1, 0, 1, 5, balance, balance+1, allowance, allowance+1, i128::MAX}, add/remove minter (incl. removing the owner's own minter role), set_admin / transfer_ownership, advance 1 or 2 ledgers; accounts A, B, C; after every new state balance() of all accounts, allowance() of all 9 ordered pairs, is_minter, owner() and sum(balances) == minted - burned are compared with the reference token".into();
+        o.rule = "all sequences over mint (owner), mint_from (constructor minter, non-minter), transfer, approve (expiration = ledger-1, ledger, ledger+1, ledger+2, ledger+20), transfer_from, burn, burn_from with amounts chosen relative to the state {-1, 0, 1, 5, balance, balance+1, allowance, allowance+1, i128::MAX}, add/remove minter (incl. removing the owner's own minter role), set_admin / transfer_ownership, advance 1, 2 or 17 ledgers; accounts A, B, C; after every new state balance() of all accounts, allowance() of all 9 ordered pairs, is_minter, owner() and sum(balances) == minted - burned are compared with the reference token".into();
         (C12 { thorough }, o)
     });
 }
